@@ -74,6 +74,9 @@ impl tokio::io::AsyncWrite for BiStream {
 fn transport() -> quinn::TransportConfig {
     let mut t = quinn::TransportConfig::default();
     t.max_concurrent_uni_streams(0u8.into());
+    // same idle policy as the repository's own QUIC endpoints
+    t.max_idle_timeout(Some(std::time::Duration::from_secs(3600).try_into().unwrap()));
+    t.keep_alive_interval(Some(std::time::Duration::from_secs(30)));
     t
 }
 
